@@ -164,6 +164,7 @@ Fixpoint print_stmt (pf : pflags) (s : gstmt) {struct s} : option (list token) :
       ob (print_returning pf ret) (fun rt =>
       Some (wt ++ Tk TyDelete "DELETE" :: Tk TyFrom "FROM" :: name_tokens pf false t
             ++ (if String.eqb al "" then [] else ident_tokens pf al) ++ ut ++ wht ++ rt)))))
+  | GMerge _ _ _ _ _ _ => None            (* MergeStatement.SQL is not modelled *)
   end
 with print_select (pf : pflags) (q : gselect) {struct q} : option (list token) :=
   match q with
@@ -243,14 +244,14 @@ Definition norm_cond (c : option jcond) : option jcond :=
 Definition norm_join (j : mjoin) : mjoin := MkJoin (j_nat j) (norm_side (j_side j)) (norm_table (j_table j)) (norm_cond (j_cond j)).
 Definition norm_item (it : mitem) : mitem := match it with IExpr e a => IExpr (nm e) (norm_alias true a) | x => x end.
 Definition norm_group (g : mgroup) : mgroup :=
-  match g with GrExpr e => GrExpr (nm e) | GrRollup es => GrRollup (map nm es) | GrCube es => GrCube (map nm es) end.
+  match g with GrExpr e => GrExpr (nm e) | GrRollup es => GrRollup (map nm es) | GrCube es => GrCube (map nm es) | GrSets _ => g end.
 Definition norm_order (o : morder) : morder :=
   MkOrder (nm (o_expr o)) (match o_dir o with Some false => Some false | _ => None end) (o_nulls o).
 Definition norm_fetch (f : mfetch) : mfetch := MkFetch (ft_next f) (ft_count f) (ft_percent f) (Some true) (ft_ties f).
 Definition norm_select (s : mselect) : mselect :=
   MkSelect (s_distinct s) (map nm (s_distinct_on s)) (map norm_item (s_items s)) (map norm_table (s_from s))
            (map norm_join (s_joins s)) (option_map nm (s_where s)) (map norm_group (s_group s)) (option_map nm (s_having s))
-           (map norm_order (s_order s)) (s_limit s) (s_offset s) (option_map norm_fetch (s_fetch s)).
+           (map norm_order (s_order s)) (s_limit s) (s_offset s) (option_map norm_fetch (s_fetch s)) (s_for s).
 Fixpoint norm_query (q : mquery) : mquery :=
   match q with QSelect s => QSelect (norm_select s) | QSetOp l op all r => QSetOp (norm_query l) op all (norm_select r) end.
 Definition norm_cte (c : mcte) : mcte := MkCte (c_name c) (c_cols c) (c_mat c) (norm_query (c_body c)).
@@ -267,6 +268,7 @@ Definition norm_body (b : mbody) : mbody :=
               (option_map norm_conflict cf) (map nm ret)
   | BUpdate t sets wh ret => BUpdate t (norm_sets sets) (option_map nm wh) (map nm ret)
   | BDelete t wh ret => BDelete t (option_map nm wh) (map nm ret)
+  | BMerge _ => b
   end.
 Definition norm_stmt (s : mstmt) : mstmt := MkStmt (norm_with (st_with s)) (norm_body (st_body s)).
 
@@ -281,11 +283,13 @@ Definition cond_p (c : option jcond) : bool :=
   match c with None => true | Some (JOn e) => pe e | Some (JUsing cols) => forallb pw cols end.
 Definition join_p (j : mjoin) : bool := table_p (j_table j) && cond_p (j_cond j).
 Definition item_p (it : mitem) : bool := match it with IStar => true | IQStar t => pw t | IExpr e a => pe e && alias_p a end.
-Definition group_p (g : mgroup) : bool := match g with GrExpr e => pe e | GrRollup es | GrCube es => forallb pe es end.
+(* the printers of GROUPING SETS, the locking clause and MERGE are not modelled: outside the side conditions *)
+Definition group_p (g : mgroup) : bool := match g with GrExpr e => pe e | GrRollup es | GrCube es => forallb pe es | GrSets _ => false end.
 Definition select_p (s : mselect) : bool :=
   forallb pe (s_distinct_on s) && forallb item_p (s_items s) && forallb table_p (s_from s) && forallb join_p (s_joins s)
   && optb pe (s_where s) && forallb group_p (s_group s) && optb pe (s_having s) && forallb (fun o => pe (o_expr o)) (s_order s)
-  && optb canon (s_limit s) && optb canon (s_offset s) && optb (fun f => canon (ft_count f)) (s_fetch s).
+  && optb canon (s_limit s) && optb canon (s_offset s) && optb (fun f => canon (ft_count f)) (s_fetch s)
+  && match s_for s with None => true | Some _ => false end.
 Fixpoint query_p (q : mquery) : bool :=
   match q with QSelect s => select_p s | QSetOp l _ _ r => query_p l && select_p r end.
 Definition cte_p (c : mcte) : bool := pw (c_name c) && forallb pw (c_cols c) && query_p (c_body c).
@@ -302,6 +306,7 @@ Definition body_p (b : mbody) : bool :=
       && optb conflict_p cf && forallb pe ret
   | BUpdate t sets wh ret => forallb pw t && sets_p sets && optb pe wh && forallb pe ret
   | BDelete t wh ret => forallb pw t && optb pe wh && forallb pe ret
+  | BMerge _ => false
   end.
 Definition stmt_p (s : mstmt) : bool := with_p (st_with s) && body_p (st_body s).
 
